@@ -31,40 +31,40 @@ import (
 
 // RTScn is a request to traceroute.RunTraceroute (or the HTTP handler) over the simulated wire.
 type RTScn struct {
-	Hostname   string `json:"hostname"` // "" = the family's default target for the protocol; "sack" targets get the listener's port
-	Port       int    `json:"port"`
-	Protocol   string `json:"protocol"`
-	Method     string `json:"method"`
-	MinTTL     int    `json:"min_ttl"`
-	MaxTTL     int    `json:"max_ttl"`
-	DelayMs    int    `json:"delay_ms"`
-	TimeoutMs  int    `json:"timeout_ms"`
-	WantV6     bool   `json:"want_v6"`
-	Paris      bool   `json:"paris"`
-	Queries    int    `json:"queries"`
-	E2e        int    `json:"e2e"`
-	ReverseDNS bool   `json:"reverse_dns"`
-	PublicIP   string `json:"public_ip"` // "", ok, fail, slow
-	SkipPrivate bool  `json:"skip_private"`
-	HTTP       bool   `json:"http"` // go through server.TracerouteHandler
-	CLI        bool   `json:"cli,omitempty"` // go through the command-line front end (cmd.rootCmd, in-process); fixed: first TTL 1, send delay 50 ms, no public IP
+	Hostname    string `json:"hostname"` // "" = the family's default target for the protocol; "sack" targets get the listener's port
+	Port        int    `json:"port"`
+	Protocol    string `json:"protocol"`
+	Method      string `json:"method"`
+	MinTTL      int    `json:"min_ttl"`
+	MaxTTL      int    `json:"max_ttl"`
+	DelayMs     int    `json:"delay_ms"`
+	TimeoutMs   int    `json:"timeout_ms"`
+	WantV6      bool   `json:"want_v6"`
+	Paris       bool   `json:"paris"`
+	Queries     int    `json:"queries"`
+	E2e         int    `json:"e2e"`
+	ReverseDNS  bool   `json:"reverse_dns"`
+	PublicIP    string `json:"public_ip"` // "", ok, fail, slow
+	SkipPrivate bool   `json:"skip_private"`
+	HTTP        bool   `json:"http"`          // go through server.TracerouteHandler
+	CLI         bool   `json:"cli,omitempty"` // go through the command-line front end (cmd.rootCmd, in-process); fixed: first TTL 1, send delay 50 ms, no public IP
 	// TrueSpelling: how an enabled boolean is written in the HTTP query ("" = "true"); any spelling strconv.ParseBool reads as true
 	TrueSpelling string `json:"true_spelling,omitempty"`
-	RawQuery   string `json:"raw_query,omitempty"`
+	RawQuery     string `json:"raw_query,omitempty"`
 
 	// the world
-	Dest      int             `json:"dest"` // TTL from which the target answers (0 = never)
-	Hops      map[int]HopSpec `json:"hops,omitempty"`
-	Capability string         `json:"capability,omitempty"` // SACK target: "", no-sack-permitted, plain-acks, closed, no-handshake, timestamps
-	Faults    []simnet.Fault  `json:"faults,omitempty"`
-	IPIDBase  uint32          `json:"ipid_base"`
-	EchoBase  uint32          `json:"echo_base"`
-	RouterBase string         `json:"router_base,omitempty"` // "private": routers use private addresses (C17)
-	RouterAddrs []string      `json:"router_addrs,omitempty"` // address of the router answering TTL 1, 2, ...
-	RDNS      map[string]string `json:"rdns,omitempty"`    // address -> "name" | "!error" | "" (empty list)
-	Bound     int             `json:"bound"`
-	UseListenerPort bool      `json:"use_listener_port,omitempty"`
-	CancelAtMs int            `json:"cancel_at_ms,omitempty"` // the caller's context is cancelled at this virtual instant
+	Dest            int               `json:"dest"` // TTL from which the target answers (0 = never)
+	Hops            map[int]HopSpec   `json:"hops,omitempty"`
+	Capability      string            `json:"capability,omitempty"` // SACK target: "", no-sack-permitted, plain-acks, closed, no-handshake, timestamps
+	Faults          []simnet.Fault    `json:"faults,omitempty"`
+	IPIDBase        uint32            `json:"ipid_base"`
+	EchoBase        uint32            `json:"echo_base"`
+	RouterBase      string            `json:"router_base,omitempty"`  // "private": routers use private addresses (C17)
+	RouterAddrs     []string          `json:"router_addrs,omitempty"` // address of the router answering TTL 1, 2, ...
+	RDNS            map[string]string `json:"rdns,omitempty"`         // address -> "name" | "!error" | "" (empty list)
+	Bound           int               `json:"bound"`
+	UseListenerPort bool              `json:"use_listener_port,omitempty"`
+	CancelAtMs      int               `json:"cancel_at_ms,omitempty"` // the caller's context is cancelled at this virtual instant
 	// After: an earlier request served by the same process (its own execution, default schedule) whose process-wide
 	// leftovers (caches, allocators, memoised values) are still there when this request runs
 	After *RTScn `json:"after,omitempty"`
@@ -102,19 +102,19 @@ func (hangTransport) RoundTrip(req *http.Request) (*http.Response, error) {
 }
 
 type RTResult struct {
-	X        *vsched.Exec
-	Net      *simnet.Net
-	Script   *Script
-	Res      *result.Results
-	Err      error
-	Status   int
-	Body     []byte
-	Accepted int // TCP connections accepted by the harness listener (the target)
-	Fetcher  *stubFetcher
-	RDNSCalls map[string]int
-	ElapsedNs int64
+	X           *vsched.Exec
+	Net         *simnet.Net
+	Script      *Script
+	Res         *result.Results
+	Err         error
+	Status      int
+	Body        []byte
+	Accepted    int // TCP connections accepted by the harness listener (the target)
+	Fetcher     *stubFetcher
+	RDNSCalls   map[string]int
+	ElapsedNs   int64
 	ThreadsLeft int
-	ListenPort uint16
+	ListenPort  uint16
 }
 
 // variantOf maps request parameters to the harness variant name ("" = none / invalid).
@@ -283,13 +283,19 @@ func runRT(cfg vsched.Config, sc *RTScn, twice bool) *RTResult {
 					}
 				}
 			}
-		case "plain-acks":
+		case "plain-acks", "plain-acks-with-timestamps":
+			// (with timestamps: both options were negotiated, the acknowledgements carry NOP NOP TIMESTAMPS and no SACK option)
+			form := "plainack"
+			if sc.Capability == "plain-acks-with-timestamps" {
+				form = "plainackTS"
+				spec.Timestamps = true
+			}
 			for _, s := range scns {
 				if s.Variant == "sack" {
 					s.Hops = map[int]HopSpec{}
 					for t := 1; t <= 255; t++ {
 						if sc.Dest > 0 && t >= sc.Dest {
-							s.Hops[t] = HopSpec{Form: "plainack"}
+							s.Hops[t] = HopSpec{Form: form}
 						}
 					}
 				}
